@@ -42,7 +42,7 @@ def C03(ctx):
                 #     after the acquiring operation, a fence must lie between the accesses it orders - the publication-order rules of all containers
                 "VBQ.cell-protocol", "NQ.protocol", "OWN.move-out-destroy", "MSQ.protocol", "RQ.protocol", "KF.protocol", "SCQ.settle-slot",
                 "VHM.insert-publication", "VHM.marker", "VHM.grow", "VHM.reader-validation", "VHM.pool-lock", "WSD.protocol", "WSD.stable-slot",
-                "SL.protocol", "LR.toggle", "LR.table", "HM.insert", "HP.protocol", "HE.protocol", "EBR.protocol", "QSBR.protocol", "STAMP.protocol",
+                "SL.protocol", "LR.toggle", "LR.table", "HM.insert", "HP.protocol", "HE.protocol", "EBR.protocol", "QSBR.protocol", "STAMP.protocol", "VBQ.variant-dispatch",
                 "LFRC.protocol", "HP.retire", "HE.retire", "LIST.push-relink", "HE.era-after-load")
     k1_rules(ctx, "C03")
     scheme_rules(ctx)
@@ -85,7 +85,7 @@ def C01(ctx):
     ctx.only = ("K1.", "K4.reclaim-after-unlink", "HP.protocol", "HP.active-gather", "HP.delete-licensed", "HP.validate-after-protect",
                 "HE.protocol", "HE.active-gather", "HE.delete-licensed", "HE.era-after-load", "HE.exception-safety", "HE.retire", "HE.shared-slot",
                 "EBR.protocol", "EBR.orphans", "EBR.constants", "EBR.epoch-slots", "EBR.activity", "EBR.scan-cursor", "QSBR.protocol", "QSBR.constants", "QSBR.activity",
-                "STAMP.protocol", "STAMP.delete-licensed", "LFRC.", "K3.", "K13.")
+                "STAMP.protocol", "STAMP.help-pending-push", "STAMP.delete-licensed", "LFRC.", "K3.", "K13.")
     k1_rules(ctx, "C01")
     reclaim.reclaim_after_unlink(ctx, [".hpp"])
     ctx.floor("K4.reclaim-after-unlink", 20)
@@ -155,7 +155,7 @@ def C06(ctx):
 
 
 def C07(ctx):
-    ctx.only = ("K1.", "OWN.", "RQ.", "NQ.", "UAM.", "KF.protocol", "VBQ.cell-protocol", "K4.reclaim-after-unlink")
+    ctx.only = ("K1.", "OWN.", "RQ.", "NQ.", "UAM.", "KF.protocol", "VBQ.cell-protocol", "VBQ.variant-dispatch", "K4.reclaim-after-unlink")
     k1_rules(ctx, "C07")
     queues.michael_scott(ctx)
     queues.ramalhete(ctx)
@@ -222,8 +222,10 @@ def C10(ctx):
 
 
 def C11(ctx):
-    ctx.only = ("K1.", "VHM.iterator-lock", "VHM.iterator-position", "VHM.marker", "VHM.lock-pairing", "VHM.cache-coherence")
+    ctx.only = ("K1.", "VHM.iterator-lock", "VHM.iterator-position", "VHM.marker", "VHM.lock-pairing", "VHM.cache-coherence", "VHM.reader-validation")
     k1_rules(ctx, "C11")
+    # removals through the iterator are observed by lock-free readers only through the version re-validation
+    vyukov.reader_validation(ctx)
     vyukov.marker_protocol(ctx)
     vyukov.locking(ctx)
     vyukov.iterator_rules(ctx)
@@ -298,6 +300,10 @@ def C16(ctx):
     progress.rules(ctx)
     vyukov.reader_validation(ctx)
     queues.swing_cas_expected(ctx)
+    # operations documented lock-free must not be routed to a blocking sibling / must help instead of waiting
+    ctx.only = ("K11.", "VHM.reader-validation", "Q.swing-expected", "KF.field-fit", "KF.segment-step", "VBQ.variant-dispatch", "STAMP.help-pending-push")
+    queues.vyukov_bounded(ctx)
+    schemes.stamp_rules(ctx)
     # of the k-FIFO rules only the index-width rule is a progress condition (an index that does not fit its field makes push/pop spin forever)
     ctx.only_skip = ("KF.aba", "KF.protocol", "OWN.", "KF.region-predicate", "KF.tail-advance", "KF.scan-complete", "KF.tail-never-onto-head")
     queues.kfifo(ctx)
